@@ -100,6 +100,14 @@ Definition udp_submit_is_blocking_send : bool := routing_shape "send u.pool.JobQ
 Theorem handlers_submit_by_blocking_send : tcp_submit_is_blocking_send = true /\ udp_submit_is_blocking_send = true.
 Proof. split; reflexivity. Qed.
 
+(* Listen builds the pool once, under that condition, and does nothing else with it (NewPool starts the workers itself) *)
+Definition modelled_tcp_Listen : list outline :=
+  [Node "if cfg.MaxInvoke > 0" [Node "assign t.pool = gpool.NewPool(int(cfg.MaxInvoke), cfg.QueueCap)" []]].
+Definition modelled_udp_Listen : list outline :=
+  [Node "if cfg.MaxInvoke > 0" [Node "assign u.pool = gpool.NewPool(int(cfg.MaxInvoke), cfg.QueueCap)" []]].
+Theorem listen_builds_the_pool_once : src_tcp_Listen = modelled_tcp_Listen /\ src_udp_Listen = modelled_udp_Listen.
+Proof. split; reflexivity. Qed.
+
 (* ---------- the shutdown tail ---------- *)
 Definition source_flags : flags := handle_flags src_tcp_Handle src_tcp_handleConn src_tcp_recv.
 Theorem source_statement_order : source_flags = good_flags.
